@@ -240,6 +240,7 @@ Section Ops.
 
   Definition find_list (l : list sdoc) (query : doc) (sort : option doc) (skip limit : Z)
     : res (list sdoc) :=
+    if skip <? 0 then Err else    (* collection.go:85 / :232 / :421 "skip must not be negative" (since /repo dfe0c95) *)
     let sorted_r : res (list sdoc) :=
       match sort with
       | Some s =>
@@ -252,8 +253,7 @@ Section Ops.
     let* sorted := sorted_r in
     let limit' := if 0 <? limit then limit + skip else limit in
     let* sel := select (fun sd => matchf (snd sd) query) sorted limit' in
-    if skip <? 0 then Panic      (* list[skip:] with a negative bound *)
-    else Ok (drop skip sel).
+    Ok (drop skip sel).
 
   Definition fail {A} (c : coll) (e : ekind) : outcome A := (c, inr e).
   Definition failr {A B} (c : coll) (r : res B) : outcome A := (c, inr (ekind_of_res r)).
